@@ -169,6 +169,14 @@ impl Wallet {
     /// [private_key - 32 bytes]
     /// [public_key - 33 bytes]
     pub fn deserialize_from_disk(&mut self, bytes: &[u8]) {
+        if bytes.len() < 65 {
+            // a truncated or torn wallet file: keep the current keys instead of aborting the node
+            warn!(
+                "wallet data is too short to hold a key pair : {:?} bytes",
+                bytes.len()
+            );
+            return;
+        }
         self.private_key = bytes[0..32].try_into().unwrap();
         self.public_key = bytes[32..65].try_into().unwrap();
     }
